@@ -384,7 +384,13 @@ def confirm_and_report(ctx, scen_by_id, violations, props, observer='TraceObs', 
             # re-execute with the scenarios that preceded it in its process, the nearest ones first
             preds = [scen_by_id[x] for x in history[sid] if x in scen_by_id]
             for k in (3, 12, len(preds)):
-                grp = preds[-k:] + group
+                grp = []
+                for x in preds[-k:] + group:
+                    # a predecessor that is compared with a twin brings the twin along
+                    if x.get('twin') and x['twin'] in scen_by_id and all(y['id'] != x['twin'] for y in grp):
+                        grp.append(scen_by_id[x['twin']])
+                    if all(y['id'] != x['id'] for y in grp):
+                        grp.append(x)
                 traces = run_harness(ctx, grp, 'confirm-hist-%d-%d' % (len(seen), k), shards=1)
                 again = observe(ctx, traces, props, module=observer)
                 if (prop, sid) in again:
